@@ -1,3 +1,5 @@
+//go:build verif
+
 package rigs
 
 import (
@@ -9,6 +11,7 @@ import (
 // Rigs maps a property id to its rig.
 var Rigs = map[string]sim.Rig{
 	"C07": {Name: "reload", Run: runReload},
+	"C16": {Name: "lifecycle", Run: runLifecycle},
 }
 
 func TestWorker(t *testing.T) { sim.WorkerMain(t, Rigs) }
